@@ -254,10 +254,15 @@ def run_beam(case):
     mesh = mesher.Mesh_Beams([beam], elemType=getattr(ElemType, case["elem"]))
     structure = Models.Beam.BeamStructure([beam])
     simu = Simulations.Beam(mesh, structure, useTimoshenko=case["timo"], verbosity=False)
-    simu.rho = case["rho"]
+    mesh = simu.mesh
+    if case.get("rho_elem") is not None:
+        # per-element density field (pattern repeated over the elements, in mesh.connect order)
+        pat = case["rho_elem"]
+        simu.rho = np.array([pat[i % len(pat)] for i in range(mesh.Ne)], dtype=float)
+    else:
+        simu.rho = case["rho"]
     K, C, M, F = simu.Get_K_C_M_F()
     dof_n = simu.Get_dof_n()
-    mesh = simu.mesh
     dofs = used_dofs(mesh, dof_n)
     sK, Kd = spectrum(K[dofs][:, dofs])
     sM, Md = spectrum(M[dofs][:, dofs])
@@ -265,6 +270,18 @@ def run_beam(case):
     res = {"Nn": int(mesh.Nn), "Ne": int(mesh.Ne), "dof_n": int(dof_n), "K": sK, "M": sM, "L": L,
            "mass_prop": float(simu.mass), "area": float(section.area), "M_dir": [],
            "frame_orthonormality_defect": float(np.abs(P.T @ P - np.eye(3)).max())}
+    Xc = np.asarray(mesh.coord, dtype=float)
+    cn = np.asarray(mesh.connect)
+    res["L_e"] = [float(np.linalg.norm(Xc[c[1]] - Xc[c[0]])) for c in cn]     # end nodes are the first two
+    res["rho_e"] = [float(x) for x in np.broadcast_to(np.asarray(simu.rho, dtype=float), (mesh.Ne,))] if np.ndim(simu.rho) <= 1 else None
+    from EasyFEA.FEM._utils import MatrixType as _MT
+    xl = (Xc - Xc[cn[0][0]]) @ P[:, 0]          # abscissa along the fibre
+    res["x_ends_e"] = [[float(xl[c[0]]), float(xl[c[1]])] for c in cn]
+    tx = np.zeros(mesh.Nn * dof_n); wx = np.zeros(mesh.Nn * dof_n)
+    for m in range({1: 1, 2: 2, 3: 3}[bd]):     # translation along the fibre and the same weighted by the abscissa
+        tx[m::dof_n] = P[m, 0]; wx[m::dof_n] = P[m, 0] * xl
+    res["M_moment"] = float(wx @ (M @ tx))      # = int rho A x dx (N reproduces linear functions)
+    res["nPg_beam"] = int(mesh.groupElem.Get_gauss(_MT.beam).nPg)
     ntrans = {1: 1, 2: 2, 3: 3}[bd]
     for m in range(ntrans):
         t = np.zeros(mesh.Nn * dof_n)
@@ -275,6 +292,156 @@ def run_beam(case):
         R = R.reshape(-1, 1)
     KR = K @ R
     res["rigid_residual"] = [float(np.abs(KR[:, k]).max() / (sK["absmax"] * max(np.abs(R[:, k]).max(), 1e-300))) for k in range(R.shape[1])]
+    return res
+
+
+def grid_data(case):
+    """structured, NON-uniform grid (pure numpy; also used by the caller for the independent totals):
+    returns X (Nn,3), connectivity, exact element measures (reference frame; the optional embedding
+    is a rigid motion).  elem: SEG2/SEG3 (xs), QUAD4/QUAD8-free, TRI3/TRI6 (quads split in 2), HEXA8."""
+    et = case["elem"]
+    xs = np.asarray(case["xs"], dtype=float)
+    ys = np.asarray(case.get("ys") or [0.0], dtype=float)
+    zs = np.asarray(case.get("zs") or [0.0], dtype=float)
+    if et in ("SEG2", "SEG3"):
+        o = {"SEG2": 1, "SEG3": 2}[et]
+        pts, conn = [], []
+        for i in range(len(xs) - 1):
+            base = len(pts)
+            if i == 0:
+                pts.append(xs[0])
+            a = len(pts) - 1 if i > 0 else 0
+            a = conn[-1][1] if i > 0 else 0
+            pts.append(xs[i + 1]); b = len(pts) - 1
+            if o == 2:
+                pts.append((xs[i] + xs[i + 1]) / 2); conn.append([a, b, len(pts) - 1])
+            else:
+                conn.append([a, b])
+        X = np.zeros((len(pts), 3)); X[:, 0] = pts
+        meas = np.diff(xs)
+    elif et in ("QUAD4", "TRI3", "TRI6"):
+        nx, ny = len(xs) - 1, len(ys) - 1
+        if et == "TRI6":
+            xx = np.sort(np.concatenate([xs, (xs[:-1] + xs[1:]) / 2])); yy = np.sort(np.concatenate([ys, (ys[:-1] + ys[1:]) / 2]))
+        else:
+            xx, yy = xs, ys
+        mx = len(xx)
+        idx = lambda i, j: j * mx + i
+        X = np.zeros((len(xx) * len(yy), 3))
+        for j in range(len(yy)):
+            for i in range(mx):
+                X[idx(i, j), :2] = xx[i], yy[j]
+        conn, meas = [], []
+        for j in range(ny):
+            for i in range(nx):
+                ar = (xs[i + 1] - xs[i]) * (ys[j + 1] - ys[j])
+                if et == "QUAD4":
+                    conn.append([idx(i, j), idx(i + 1, j), idx(i + 1, j + 1), idx(i, j + 1)]); meas.append(ar)
+                elif et == "TRI3":
+                    a, b, c, d = idx(i, j), idx(i + 1, j), idx(i + 1, j + 1), idx(i, j + 1)
+                    conn += [[a, b, c], [a, c, d]]; meas += [ar / 2, ar / 2]
+                else:
+                    I, J = 2 * i, 2 * j
+                    a, b, c, d = idx(I, J), idx(I + 2, J), idx(I + 2, J + 2), idx(I, J + 2)
+                    ab, bc, cd, da, ac = idx(I + 1, J), idx(I + 2, J + 1), idx(I + 1, J + 2), idx(I, J + 1), idx(I + 1, J + 1)
+                    conn += [[a, b, c, ab, bc, ac], [a, c, d, ac, cd, da]]; meas += [ar / 2, ar / 2]
+        meas = np.array(meas)
+    elif et == "HEXA8":
+        nx, ny, nz = len(xs) - 1, len(ys) - 1, len(zs) - 1
+        idx = lambda i, j, k: (k * (ny + 1) + j) * (nx + 1) + i
+        X = np.zeros(((nx + 1) * (ny + 1) * (nz + 1), 3))
+        for k in range(nz + 1):
+            for j in range(ny + 1):
+                for i in range(nx + 1):
+                    X[idx(i, j, k)] = xs[i], ys[j], zs[k]
+        conn, meas = [], []
+        for k in range(nz):
+            for j in range(ny):
+                for i in range(nx):
+                    conn.append([idx(i, j, k), idx(i + 1, j, k), idx(i + 1, j + 1, k), idx(i, j + 1, k),
+                                 idx(i, j, k + 1), idx(i + 1, j, k + 1), idx(i + 1, j + 1, k + 1), idx(i, j + 1, k + 1)])
+                    meas.append((xs[i + 1] - xs[i]) * (ys[j + 1] - ys[j]) * (zs[k + 1] - zs[k]))
+        meas = np.array(meas)
+    else:
+        raise ValueError("grid: element type %s" % et)
+    if case.get("embed") is not None:       # rigid motion into 3-D: x -> R x + t
+        R = np.asarray(case["embed"]["R"], dtype=float)
+        X = X @ R.T + np.asarray(case["embed"]["t"], dtype=float)
+    return X, np.array(conn, dtype=int), np.asarray(meas, dtype=float)
+
+
+def coef_array(spec, Ne, nPg):
+    """spec: {"mode": "scalar"|"elem"|"gauss"|"full", "values": ...} -> what the user would pass"""
+    m = spec["mode"]
+    v = np.asarray(spec["values"], dtype=float)
+    if m == "scalar":
+        return float(v)
+    if m == "elem":
+        assert v.shape == (Ne,)
+    elif m == "gauss":
+        assert v.shape == (nPg,)
+    else:
+        assert v.shape == (Ne, nPg)
+    return v
+
+
+def run_grid(case):
+    """non-uniform structured mesh (optionally embedded in 3-D) with coefficient FIELDS"""
+    from EasyFEA import Models, Simulations
+    from EasyFEA.FEM import Mesh
+    from EasyFEA.FEM._group_elem import GroupElemFactory
+    from EasyFEA.FEM._utils import ElemType, MatrixType
+    X, conn, meas = grid_data(case)
+    et = getattr(ElemType, case["elem"])
+    mesh = Mesh({et: GroupElemFactory.Create(et, conn, X)})
+    g = mesh.groupElem
+    Ne = int(conn.shape[0])
+    npg = {"mass": int(g.Get_gauss(MatrixType.mass).nPg), "rigi": int(g.Get_gauss(MatrixType.rigi).nPg)}
+    p, co = case["params"], case["coefs"]
+    dim = mesh.dim
+    res = {"Nn": int(mesh.Nn), "Ne": Ne, "dim": int(dim), "inDim": int(mesh.inDim), "nPg": npg, "measure": measure_of(mesh),
+           "connect_same": bool(np.array_equal(np.asarray(g.connect), conn))}
+    rs = np.random.RandomState(case.get("field_seed", 0))
+    if case["phys"] == "elastic":
+        E = coef_array(co["E"], Ne, npg["rigi"])
+        mat = Models.Elastic.Isotropic(dim, E=E, v=p["v"], planeStress=p.get("planeStress", True), thickness=p.get("thickness", 1.0)) if dim == 2 \
+            else Models.Elastic.Isotropic(3, E=E, v=p["v"])
+        simu = Simulations.Elastic(mesh, mat)
+        simu.rho = coef_array(co["rho"], Ne, npg["mass"])
+        K, C, M, F = simu.Get_K_C_M_F()
+        A = rs.uniform(-1, 1, (dim, dim))
+        U = (X[:, :dim] @ A.T).ravel()
+        eps = (A + A.T) / 2
+        cm = 1 / np.sqrt(2)
+        e = np.array([eps[0, 0], eps[1, 1], 2 * cm * eps[0, 1]]) if dim == 2 else \
+            np.array([eps[0, 0], eps[1, 1], eps[2, 2], 2 * cm * eps[1, 2], 2 * cm * eps[0, 2], 2 * cm * eps[0, 1]])
+        Cm = np.asarray(mat.C, dtype=float)
+        if Cm.ndim == 2:
+            Cm = np.broadcast_to(Cm, (Ne,) + Cm.shape)
+        res["density_e"] = [float(e @ Cm[i] @ e) for i in range(Ne)]
+        res["lin_energy"] = float(U @ (K @ U))
+        res["M_dir"] = []
+        for m in range(dim):
+            t = np.zeros(mesh.Nn * dim); t[m::dim] = 1.0
+            res["M_dir"].append(float(t @ (M @ t)))
+        res["mass_prop"] = float(simu.mass)
+        sM, _ = spectrum(M); sK, _ = spectrum(K)
+    else:
+        mat = Models.Thermal(k=coef_array(co["k"], Ne, npg["rigi"]), c=coef_array(co["c"], Ne, npg["mass"]), thickness=p.get("thickness", 1.0))
+        simu = Simulations.Thermal(mesh, mat)
+        simu.rho = coef_array(co["rho"], Ne, npg["mass"])
+        K, C, M, F = simu.Get_K_C_M_F()
+        # gradient lying in the (possibly embedded) element plane / line
+        a_ref = np.zeros(3); a_ref[:dim] = rs.uniform(-1, 1, dim)
+        a = (np.asarray(case["embed"]["R"], dtype=float) @ a_ref) if case.get("embed") is not None else a_ref
+        T = X @ a + 0.3
+        res["density_e"] = [float(a_ref @ a_ref)] * Ne        # |grad T|^2 ; conductivity applied by the caller
+        res["lin_energy"] = float(T @ (K @ T))
+        one = np.ones(mesh.Nn)
+        res["M_dir"] = [float(one @ (C @ one))]
+        res["mass_prop"] = None
+        sM, _ = spectrum(C); sK, _ = spectrum(K)
+    res["K"], res["M"] = sK, sM
     return res
 
 
@@ -319,6 +486,8 @@ def run_case(case):
             return run_continuum(case, mesh)
         if case["kind"] == "beam":
             return run_beam(case)
+        if case["kind"] == "grid":
+            return run_grid(case)
         if case["kind"] == "layout":
             return run_layout(case)
         return {"error": "unknown kind"}
